@@ -43,3 +43,27 @@ add("C03", "E5 space", "exploration",
     "Every dtype NumPy, ml_dtypes, JAX (incl. tracers and PRNG keys) and TensorFlow can produce on this platform is crossed with all 34 exported categories and 35 generated user/struct categories on every carrier (np.ndarray, jax.Array, tracer, tf.Tensor, string / torch-style / as_numpy_dtype ducks); the space is finite and enumerated completely, nothing sampled or capped.",
     "Trusted: NumPy/JAX/ml_dtypes/TF introspection for canonical identities and vf/refs/dtypes.py (synchronised with docs/api/array.md at start-up). Undocumented precisions (longdouble, float8_e3m4, ...) are don't-care on the value but must be consistent across carriers; 'matches' is read as Pattern.match; platform-specific alias set (x86-64 Linux).",
     "DESIGN.md §6 C03")
+
+ENGINES.append(dict(name="E2 callspace", path="vf/checks/c02.py c13.py c07.py c17.py c19.py", serves_properties=["C02", "C13"], kind_free_text="bounded-exhaustive enumeration of decorated programs (signatures x decorator spellings x typecheckers x call styles) x inputs, against order-free oracles"))
+add("C02", "E2 callspace", "exploration",
+    "bounded-exhaustive program x input enumeration against a brute-force satisfiability oracle (order-free), closed under permutation",
+    "Every legal signature of k<=3 (families up to k=5) array-annotated parameters (+ return annotation) from 12 dim strings + 3 symbolic ones is decorated for real (new-style def, dataclass __init__, old-style double decorator; typeguard and beartype) and called with every tuple of argument/return shapes from 9 shapes in every call style; acceptance must equal EXISTS-sigma satisfiability decided by brute force. The product is closed under permutation of parameters, so any dependence on declaration order, call style or typechecker shows up as a disagreement with the order-free oracle.",
+    "Oracle vf/refs/shapes.satisfiable enumerates candidate sizes (sizes that occur, 1) and candidate *shapes (all contiguous slices and their joint broadcasts); symbolic axes only after parameters that definitely bind their names (otherwise AnnotationError is legitimate).",
+    "DESIGN.md §6 C02")
+add("C13", "E2 callspace", "exploration",
+    "bounded-exhaustive enumeration of ill-typed calls; parsed error messages compared with reference bind-or-compare bindings and minimal-unsatisfiable-subset blame",
+    "Every ill-typed call of the C02 generator (k<=3) and of an extended family (Union whose first alternative fails, tuple, PyTree[..,'T'], 'c a', '*v a') is made with both typecheckers and both values of the remove-typechecker-stack switch; the TypeCheckError text is parsed: stage sentence = parameters iff the parameter constraints alone are unsatisfiable, function name, blamed parameter in a minimal unsatisfiable subset, listed axis/structure bindings = exactly those of the parameters accepted before the failure, __cause__ presence vs switch; misuse ('?' outside PyTree, unbound symbolic, unbound composite) at every position must surface as AnnotationError.",
+    "Assumes both typecheckers walk parameters in signature order (true for typeguard 2.13.3 and beartype 0.22.9; otherwise the check reports disagreement as a violation to triage). Don't-care: bindings made by components of a failing tuple[...] hint (owned by the typechecker, no rollback); union values matching several alternatives.",
+    "DESIGN.md §6 C13")
+
+ENGINES[1]["serves_properties"] += ["C14", "C15"]
+add("C14", "E5 space", "exploration",
+    "bounded-exhaustive dim-spec grammar product, judged against a reference parser and differentially against normal forms",
+    "Every spec of the stated token/sequence/whitespace grammar (<=4 modifier characters in every order, doc= prefix at every position, 11 bases, sequences, whitespace patterns) plus non-strings is built on the real code; the outcome class is compared with the documented legal / illegal / don't-care reading (totality: annotation or ValueError, nothing else); every legal spelling's acceptance vector over 63 shapes x 3 contexts (+ what it binds, + PyTree leaf pairs for '?') equals that of its normal form, whose vector lies in the reference-allowed set.",
+    "Trusts vf/refs/dims.py (+ dims_ext.py) and vf/refs/shapes.step as the reading of docs/api/array.md; don't-care: empty base without '_', '?_', several '=', bases the docs list as neither legal nor illegal ('-1', '1.5').",
+    "DESIGN.md §6 C14")
+add("C15", "E5 space", "exploration",
+    "bounded-exhaustive algebraic-law instances: both sides built on the real constructors and compared by acceptance vectors",
+    "All category pairs x dim-string pairs x {Duck, ndarray, Any} for the nesting law against a fresh user category whose dtype list is computed from the documented hierarchy (not jaxtyping's tables), 3-level nesting, unions in both spellings, TypeVars (bound / constraints / bare), the scalar ladder, and Scalar/ScalarLike/PRNGKeyArray against their documented definitions; ValueError exactly where the law says so; vectors under 3 prior contexts.",
+    "Trusts vf/refs/dtypes_c15.py (universe = dtypes the docs name) and the member-by-member reading of Union; Python scalars in precision-specific categories and np.number outside Shaped/Num are don't-care.",
+    "DESIGN.md §6 C15")
